@@ -43,6 +43,11 @@ class Proxy:
         self.close()
 
 
+class Livelock(BaseException):
+    """open() retried without bound for one write(): not an Exception, so the writer's own
+    `except Exception` cannot swallow it"""
+
+
 class Instr:
     """fault script + trace for one case"""
 
@@ -56,6 +61,7 @@ class Instr:
         self.attempts = 0
         self.trace = []
         self.unknown_paths = []
+        self.since_success = 0
 
     def pid(self, path):
         key = os.path.basename(str(path))
@@ -76,6 +82,9 @@ class Instr:
                 or pid in self.perm)
         if fail:
             self.trace.append([0, pid, append, n, 0])
+            self.since_success += 1
+            if self.since_success > 60:
+                raise Livelock('open() failed %d times in a row without write() giving up' % self.since_success)
             raise OSError(errno.EMFILE, 'Too many open files (injected)', str(path))
         try:
             f = real(path, mode, *a, **kw)
@@ -83,6 +92,7 @@ class Instr:
             self.trace.append([0, pid, append, n, 0])
             raise
         self.trace.append([0, pid, append, n, 1])
+        self.since_success = 0
         return Proxy(self, f, pid)
 
 
@@ -154,7 +164,7 @@ def read_back(d, names):
 def finish(inst, limiter, d, names, k, status):
     """state before close(), then close(), leak count, files"""
     try:
-        open_keys = [inst.pid(p) for p in limiter.openHandles.keys()]
+        open_keys = [inst.pid(p) for p, v in limiter.openHandles.items() if 'handle' in v]
         seen = sorted(inst.pid(p) for p in limiter.seen)
         ctr = limiter.pruneIntervalCounter
     except Exception as e:
@@ -164,9 +174,7 @@ def finish(inst, limiter, d, names, k, status):
         limiter.close()
     except BaseException as e:
         close_error = '%s: %s' % (type(e).__name__, e)
-    import gc
-    gc.collect()
-    leaked = inst.nopen
+    leaked = inst.nopen   # proxies not closed through close(): descriptors the writer lost track of
     files, errs = read_back(d, names)
     return {'k': k, 'status': status, 'trace': inst.trace, 'open': open_keys, 'seen': seen, 'ctr': ctr,
             'close_error': close_error, 'leaked': leaked, 'files': files, 'read_errors': errs,
@@ -200,7 +208,7 @@ def run_case(n, case, probe=False):
                         h.write(os.path.join(d, fn), s, method=0 if is_plain else 1, forceAppend=True)
                     else:
                         h.write(os.path.join(d, fn), s, method=0 if is_plain else 1)
-                except Exception as e:
+                except (Exception, Livelock) as e:
                     status = exc_code(e)
                     del e
                     break
@@ -247,7 +255,7 @@ def run_fastq(n, case):
                 strings.append([str(r) for r in recs])
                 try:
                     fh.write(recs)
-                except Exception as e:
+                except (Exception, Livelock) as e:
                     status = exc_code(e)
                     del e
                     break
@@ -290,9 +298,66 @@ def run_rlimit(n, case):
     return res
 
 
+def shrink(n, job):
+    """greedy minimisation of a failing case, in this process: drop operations / faults / options while
+    the same kind of specification violation (c19.spec_violations, evaluated on the real outcome) remains"""
+    import c19
+    key, cur = job['key'], job['case']
+    counter = [0]
+
+    def run(c):
+        counter[0] += 1
+        return run_case(1000000 + n * 100000 + counter[0], c)
+
+    def bad(c):
+        return any(k == key for k, _ in c19.spec_violations(c, run(c)))
+    if not bad(cur):
+        return {'case': cur, 'res': run(cur), 'shrunk': False}
+    progress = True
+    import time
+    t_end = time.time() + 40
+    while progress and counter[0] < 5000 and time.time() < t_end:
+        progress = False
+        # chunks of operations first, then single operations
+        size = max(1, len(cur['ops']) // 2)
+        while size >= 1:
+            i = 0
+            while i < len(cur['ops']):
+                c = dict(cur); c['ops'] = cur['ops'][:i] + cur['ops'][i + size:]
+                if c['ops'] and bad(c):
+                    cur, progress = c, True
+                else:
+                    i += size
+            size //= 2
+        for kind in ('soft', 'hard', 'perm'):
+            i = 0
+            while i < len(cur['script'].get(kind, [])):
+                sc = dict(cur['script']); sc[kind] = sc[kind][:i] + sc[kind][i + 1:]
+                c = dict(cur); c['script'] = sc
+                if bad(c):
+                    cur, progress = c, True
+                else:
+                    i += 1
+        i = 0
+        while i < len(cur['init']):
+            c = dict(cur); c['init'] = cur['init'][:i] + cur['init'][i + 1:]
+            if bad(c):
+                cur, progress = c, True
+            else:
+                i += 1
+        for simpler in (lambda c: {'init': []}, lambda c: {'plain': []},
+                        lambda c: {'ops': [[o[0], '%d;' % i, o[2]] for i, o in enumerate(c['ops'])]},
+                        lambda c: {'ops': [[o[0], o[1], 0] for o in c['ops']]},
+                        lambda c: {'univ': sorted(set(o[0] for o in c['ops']) | set(x[0] for x in c['init']))}):
+            c = dict(cur); c.update(simpler(cur))
+            if c != cur and bad(c):
+                cur, progress = c, True
+    return {'case': cur, 'res': run(cur), 'shrunk': True}
+
+
 def handler(p):
-    out = {'cases': [], 'fastq': [], 'rlimit': []}
-    for key, fn in (('cases', run_case), ('fastq', run_fastq), ('rlimit', run_rlimit)):
+    out = {'cases': [], 'fastq': [], 'rlimit': [], 'shrink': []}
+    for key, fn in (('cases', run_case), ('fastq', run_fastq), ('rlimit', run_rlimit), ('shrink', shrink)):
         for n, case in enumerate(p.get(key, [])):
             try:
                 out[key].append(fn(n, case))
